@@ -36,7 +36,7 @@ const CAP: usize = 60;
 pub enum Event {
     Chunk(Vec<u8>),
     Interrupted,
-    Fail,
+    Fail(io::ErrorKind),
 }
 
 /// A `BufRead` that delivers a scripted sequence of chunks and faults; after the script: EOF.
@@ -88,10 +88,10 @@ impl BufRead for Script {
                     self.off = 0;
                     return Err(io::Error::new(io::ErrorKind::Interrupted, "scripted interrupt"));
                 }
-                Some(Event::Fail) => {
+                Some(Event::Fail(kind)) => {
                     self.pending.clear();
                     self.off = 0;
-                    return Err(io::Error::new(io::ErrorKind::Other, "scripted failure"));
+                    return Err(io::Error::new(kind, "scripted failure"));
                 }
             }
         }
@@ -192,7 +192,10 @@ pub fn parse_src(t: &str) -> Option<Vec<Event>> {
     for e in t.split(',') {
         match e {
             "i" => out.push(Event::Interrupted),
-            "f" => out.push(Event::Fail),
+            "f" => out.push(Event::Fail(io::ErrorKind::Other)),
+            "u" => out.push(Event::Fail(io::ErrorKind::UnexpectedEof)),
+            "r" => out.push(Event::Fail(io::ErrorKind::ConnectionReset)),
+            "w" => out.push(Event::Fail(io::ErrorKind::WouldBlock)),
             _ => {
                 let c = hex_dec(e.strip_prefix('c')?)?;
                 if !c.is_empty() {
